@@ -34,8 +34,9 @@ def load_json(path, default):
         return default
 
 
-def rt_call(cmd, spec, timeout=600):
-    """Run pyvc/rt.py under the repository's interpreter, isolated from the user's data directories."""
+def rt_call(cmd, spec, timeout=900, script="rt.py"):
+    """Run pyvc/rt.py (or another run-time script) under the repository's interpreter, isolated from the
+    user's data directories."""
     tmp = tempfile.mkdtemp(prefix="pyvc-rt-")
     try:
         p = os.path.join(tmp, "spec.json")
@@ -45,8 +46,8 @@ def rt_call(cmd, spec, timeout=600):
         env.update({"XDG_DATA_HOME": tmp, "XDG_CONFIG_HOME": tmp, "XDG_CACHE_HOME": tmp, "HOME": tmp,
                     "PYTHONPATH": VERIF + os.pathsep + front.REPO, "PYVC_REPO": front.REPO,
                     "PYTHONDONTWRITEBYTECODE": "1"})
-        r = subprocess.run([VENV_PY, os.path.join(VERIF, "pyvc", "rt.py"), cmd, p], capture_output=True,
-                           text=True, timeout=timeout, env=env, cwd=tmp)
+        argv = [VENV_PY, os.path.join(VERIF, "pyvc", script)] + ([cmd] if cmd else []) + [p]
+        r = subprocess.run(argv, capture_output=True, text=True, timeout=timeout, env=env, cwd=tmp)
         try:
             return json.loads(r.stdout)
         except Exception:
@@ -198,6 +199,35 @@ class Run:
                                         "failed_clauses": w["outcome"]["failed"]})
             else:
                 self.notes.append(f"NOTE crosscheck of {fspec['fn']} not run: {str(res.get('why'))[:200]}")
+
+    def storage_histories(self, focus, backends=None, histories=None, steps=30, what=""):
+        """Bounded stand-in for the storage properties: random operation histories on the real back ends against a
+        plain reference list (pyvc/storage_rt.py).  A disagreement is reported with the history as replay."""
+        histories = histories or (25 if self.tier == "quick" else 400)
+        spec = {"mode": "history", "seed": self.seed, "histories": histories, "steps": steps, "focus": focus,
+                "backends": backends or ["memory", "sqlite", "peewee"], "max_violations": 3}
+        res = rt_call(None, spec, script="storage_rt.py", timeout=3000)
+        if res.get("status") != "ok":
+            self.notes.append(f"NOTE storage harness error: {str(res.get('why'))[-300:]}")
+            self.undecided.append({"obligations": [f"{self.pid}/storage-harness"], "why": "run-time harness failed to run"})
+            return res
+        self.bounded.append({"what": what or f"random operation histories ({focus}) on the real back ends vs. a reference list",
+                             "bound": f"{histories} histories x {len(spec['backends'])} back ends, <= {steps} operations each",
+                             "cases": res.get("runs", 0), "operations": res.get("steps", 0)})
+        known = [k for k in load_json(KNOWN, []) if k.get("property") == self.pid and k.get("status") == "known"]
+        for v in res.get("violations", []):
+            first = v["problems"][0]
+            kf = next((k for k in known if k.get("backend") == v["backend"] and k.get("op") == first["op"]["op"]), None)
+            if kf is not None:
+                if kf not in self.known_matched:
+                    self.known_matched.append(kf)
+                continue
+            rep = {"property": self.pid, "kind": "storage-history", "backend": v["backend"], "ops": v["ops"],
+                   "problems": v["problems"], "obligations": [f"{self.pid}/{v['backend']}/{first['op']['op']}/reference-model"],
+                   "reproduced": True}
+            path = self.write_replay(rep)
+            self.violations.append({"obligations": rep["obligations"], "replay": path, "reproduced": True})
+        return res
 
     def ledger_names(self):
         led = load_json(LEDGER, {})
@@ -438,6 +468,10 @@ def main(argv=None):
 def replay(pid, path):
     with open(path) as f:
         rep = json.load(f)
+    if rep.get("kind") == "storage-history":
+        res = rt_call(None, {"mode": "replay", "backend": rep["backend"], "ops": rep["ops"]}, script="storage_rt.py")
+        print(json.dumps(res, indent=1, default=str)[:4000])
+        return 1 if res.get("violations") else 0
     if "inputs" not in rep:
         print(json.dumps({"reproduced": False, "why": "replay file carries no input (no-failing-input-found)",
                           "obligations": rep.get("obligations")}))
